@@ -23,6 +23,27 @@ Proved for ALL directories satisfying `GoodFS`, ALL pools of well-typed builders
                                     complete content named (what a fetch would have produced);
 * `adv_present_persist`, `resolves_stable`  advertised entries are never removed (only ever replaced by
                                     the same complete content);
+* `sinv_step`, `dep_invariant`      ordering dependencies between entries (`Dep k d`: `adv k` is never visible
+                                    without `adv d`; for a signed apk: data section → signature section) are an
+                                    inductive invariant: every builder that is `safe` (advertises an entry only
+                                    after the entries it depends on — `safe_cacheTail`: control, signature, data,
+                                    tar, the order regenerated as `tie_cachePackage_order`) keeps `DepOk`;
+* `hit_has_signature`               in every reachable state a cache hit (control and data resolve) of a signed
+                                    package has its signature entry, with the complete signature content;
+* `hit_sections_correct`, `hit_size_signed_correct`  `hit_correct` for the whole package: the sections a hit
+                                    hands to the build (signature, control, data), hence `Signed` and the size
+                                    recorded in the installed db, are those of the fetched apk;
+* `no_unsigned_use`                 under every schedule no builder ever uses a signed package as an unsigned one
+                                    (`safe_pkgBuilder`: the reader probes control, data, *then* signature);
+* `hit_has_signature_fails_sig_last`, `sig_last_unsigned_use`, `hit_has_signature_fails_dat_sig`  with the
+                                    signature advertised after the data section (control, data, tar, signature /
+                                    control, data, signature, tar) a builder killed (or slower) in the window leaves
+                                    a hit without signature, and the next builder completes having used the
+                                    package as an unsigned one;
+* `f19c_race`, `fixed_f19c_schedule`  the tree before the fix F19c probed in the writer's order (control,
+                                    signature, data): with the directory invariant intact a concurrent builder
+                                    still used the package as unsigned.  Witness replayed on the Go code (a real
+                                    build paused at marker `hit.probe`): corpus/cache/F19c.json;
 * `recovery_live_index`, `recovery_live_pkg`, `recovery_correct`  from any good directory (any crash
                                     state) a builder with fresh temp names completes, and what it read through
                                     advertised names is the complete, correctly named content
@@ -621,6 +642,23 @@ theorem sig_last_unsigned_use :
     (let s := runSched (List.replicate 30 0 ++ List.replicate 17 1) ⟨FS.empty, sigLastPool⟩
      (s.procs 1).prog = .halt true ∧ (s.procs 1).obs.all (fun o => o.1 != .adv 4) = true) := by decide
 
+/-- the two builders with the regression "cachePackage advertises control, data, signature, tar" -/
+def datSigPool : Nat → Proc
+  | 0 => Proc.new (pkgBuilderDatSig (some (.tmp 0, 4)) (.tmp 1) (.tmp 2) (.tmp 3) (.tmp 10) 1 2 3 1)
+  | 1 => Proc.new (pkgBuilderDatSig (some (.tmp 5, 4)) (.tmp 6) (.tmp 7) (.tmp 8) (.tmp 11) 1 2 3 1)
+  | _ => Proc.new (.halt true)
+
+/-- T: the same for the order control, data, signature, tar: killed between the data link and the
+signature link (30 steps) builder 0 leaves a hit without signature; builder 1 takes it as an unsigned
+package and completes; the entry is never repaired (a hit advertises nothing). -/
+theorem hit_has_signature_fails_dat_sig :
+    (let s := runSched (List.replicate 30 0) ⟨FS.empty, datSigPool⟩
+     hitSections s.fs (some 4) 1 2 = some [(1, true), (2, true)]) ∧
+    (runSched (List.replicate 30 0 ++ List.replicate 5 1) ⟨FS.empty, datSigPool⟩).atUnsigned 1 = true ∧
+    (let s := runSched (List.replicate 30 0 ++ List.replicate 17 1) ⟨FS.empty, datSigPool⟩
+     (s.procs 1).prog = .halt true ∧ (s.procs 1).obs.all (fun o => o.1 != .adv 4) = true ∧
+     s.fs.resolve (.adv 4) = none) := by decide
+
 /-- the builders of the tree before the fix F19c (`cachedPackage` probes the signature *before* the data
 section) -/
 def racyPool : Nat → Proc
@@ -875,8 +913,9 @@ theorem coalescing_transparent {K V R : Type} [DecidableEq K] (f : K → V) (sto
 Each list is the source-order sequence of durable calls of one function (`Point:x` is a
 `verifhook.Point("x …")` marker).  The model's programs mirror exactly these orders:
 `advertise` = Stat / Remove | Symlink; `indexOnline` = (get: Stat) MkdirAll, CreateTemp, mark 0, copy,
-mark 1, advertise, mark 2, Open; `pkgMiss` = MkdirTemp, mark 0, Next/Create …, `cachePackage`'s
-advertises in the order ctl, (sig), dat, tar with marks 5–8; `pkgData` = Open tar | Open gz, mark 9,
+mark 1, advertise, mark 2, Open; `pkgExpand` = MkdirTemp, mark 0, Next/Create … (one more stream for a signed apk),
+`cacheTail` = `cachePackage`'s advertises in the order ctl, (sig), dat, tar with a mark after each;
+`pkgBuilderWith` = `cachedPackage`'s probes ctl, dat, mark `hit.probe`, sig; `pkgData` = Open tar | Open gz, mark 9,
 CreateTemp, mark 10, copy, close, Rename, mark 11, Open (the `os.Remove`s are on error paths). -/
 
 theorem tie_advertise : Generated.cache_advertiseCalls = ["os.Stat", "os.Remove", "os.Symlink"] := rfl
